@@ -24,6 +24,9 @@ systematically (quick tier, first), the random stream mixes them. The driver is 
 HKLF carry (`Line.frag np`, `Line.hklf np`: theorems `truthiness_needed_frag/_hklf`).
 Configurations: the file is read by a quiet (default), verbose or debug `Shelxfile` (`case['cfg']`); what the library
 prints is not looked at.
+Atoms need not be pairwise distinct: names are unique only within a residue / PART. `twin_cases` (systematic) and
+`rand_twins` (random stream) repeat a molecule in further residues / PARTs with the same names, the same names and
+positions, or the very same lines (theorems one_entry_per_atom_line, eq_guard_fails_on).
 """
 import contextlib
 import io
@@ -1427,7 +1430,7 @@ def run(ctx):
     ctx.rule = ('generated files: SFAC table of 1..5 elements in any order and case, spelled with one or several SFAC instructions of both forms (element list / explicit coefficients, wrapped or not), optionally an element twice; keywords in upper/lower/title case, numbers as 5 decimals / shortest / exponent, trailing ! comments; every instruction the atom rules depend on in every prefix of its optional parameters '
                 '(FRAG with 0..7 parameters, ten HKLF forms from the bare HKLF to all 13 parameters, AFIX mn [d [sof [U]]], PART n [sof], RESI in seven token orders and bare, atom lines with 5 / 6 / 7 / 12 columns): first a systematic enumeration (form_cases: each form under no / open / closed PART+AFIX+RESI context), then random files of 2..12 body items drawn from atoms (iso / aniso wrapped or not / '
                 'riding hydrogens, own occupation code or 11 or none), context instructions, FRAG..FEND blocks (plain or as DSR writes them: Cartesian coordinates, lines with sof and U, remark and blank line inside; followed by structure atoms that carry the names of the FRAG lines), '
-                '+include files (nested up to 2, on disk), other instructions; contexts closed or left open at HKLF; peaks between HKLF and END '
+                '+include files (nested up to 2, on disk), other instructions; a fifth of the files repeats a run of its atoms in one or two further residues (optionally in a PART) with the same names / names and positions / whole lines, after a systematic enumeration of such twins (twin_cases: told apart by RESI number, RESI class, PART, PART with occupation code, RESI+PART; 2 or 3 copies; closed or open; from an include file); contexts closed or left open at HKLF; peaks between HKLF and END '
                 'and after END (+WGHT); a quarter of the files is the LAST of a read history (1-2 earlier files with the same elements in another SFAC order or an unrelated file, read by the same object or another one, every observable queried in between; last read by read_string / read_file / reload() after the file changed on disk); a quarter of the files is read by a verbose or debug Shelxfile (printed text ignored); distinct by (SFAC, items); non-trivial = at least one atom and at least one of: context left open at HKLF, '
                 'FRAG block, include, peaks, anisotropic atom. Thorough: every sequence of <= 4 context instructions from a 7-letter alphabet '
                 '(PART 2 31 / PART 0 / AFIX 43 / AFIX 0 / RESI TOL 3 / RESI 0 / HKLF) with 3 atoms in every gap placement, and every sequence of 5 and 6 '
